@@ -1083,6 +1083,16 @@ pub fn c06(args: &Args) -> i32 {
                 o
             })
             .collect();
+        // characters of every UTF-8 length directly behind and in front of operator and constant names, numbers, parens
+        for head in ["sin", "PI", "min", "-", "%", "x", "1", "(", ")", "sin(", "1.", "{x}"] {
+            for ch in ["a", "é", "α", "ω", "Ω", "€", "\u{2003}", "😀", "\u{10000}", "\u{10FFFF}", "\u{7f}", "\u{80}"] {
+                for tail in ["", "x", "+1", " x", ")"] {
+                    v.push(Program { tree: None, text: format!("{head}{ch}{tail}"), class: "multibyte" });
+                    v.push(Program { tree: None, text: format!("1+{head}{ch}{tail}"), class: "multibyte" });
+                    v.push(Program { tree: None, text: format!("{ch}{head}{tail}"), class: "multibyte" });
+                }
+            }
+        }
         // unicode / control characters / brace edge cases
         for t in ["", " ", "{", "}", "{}", "{x", "x}", "{{x}}", "{x}{y}", "α", "αβγ%ω", "😀", "x%😀", "1.2.3", ".", "..", "1.", ".1", "x\t%y", "x\n", "\u{0}", "x%\u{7f}", "é", "xé", "sinα", "sin", "sin(", "min(", "min(,)", "min(x,)", "min(,x)", ",", ",,", "(,)", "x,y", "min(x,y,x)", "-", "--", "-(", ")-(", "1e5", "π", "PI", "PIx", "x PI", "Ω-Α", "ǅ", "x%ǅ", "sin ǅ", "sinǅ", "PIǅ", "１", "x%１"] {
             v.push(Program { tree: None, text: t.to_string(), class: "edge" });
